@@ -8,7 +8,9 @@ SPEC = {
                  "C03_layout_bool", "C03_layout_bool_strict", "C03_layout_bytes", "C03_layout_str", "C03_layout_prefix_width",
                  "C03_layout_slice", "C03_layout_map", "C03_layout_code", "C03_layout_optional", "C03_layout_u256",
                  "C03_layout_time", "C03_golden_scalars_example", "C03_golden_prefixes_example", "C03_golden_minmax_example",
-                 "C03_golden_map_example", "C03_golden_optional_code_example", "C03_bytearray_bounds_example", "C03_merge_priority"],
+                 "C03_golden_map_example", "C03_golden_optional_code_example", "C03_bytearray_bounds_example", "C03_merge_priority",
+                 "C03_validators_exact", "C03_must_occur_set", "C03_rules_exact", "C03_write_seq_refines", "C03_partial_write_prefix",
+                 "C03_serializer_sticky", "C03_serializer_concat", "C03_prim_example"],
     "trusted_base": ["hand-written model Hive/Model/Serix.lean of serializer/serix/{encode,decode}.go over serializer/serializer.go; the Lean encoder is the independent reference encoder, pinned to the documented layout by the C03_layout_* theorems and tied to the code by differential execution (harness/c03, harness/serixgen)",
                      "schema derivation by reflection harness/serixgen/derive.go (mirrors the TypeSettings merge of serix)",
                      "Go toolchain, compiled Lean driver (also run by the harness as the reference encoder of the layout oracle)"],
